@@ -392,7 +392,10 @@ def translate():
              "Require Import V.Kernel.Values V.Model.Pyl.", "Local Open Scope string_scope.", ""]
     names = []
     for fname, targets in TARGETS.items():
-        tree = ast.parse(open(os.path.join(REPO, "asyncstdlib", fname)).read())
+        try:
+            tree = ast.parse(open(os.path.join(REPO, "asyncstdlib", fname)).read())
+        except (OSError, SyntaxError):
+            tree = ast.parse("")
         markers = [t.id for n in tree.body if isinstance(n, ast.Assign) and isinstance(n.value, ast.Call)
                    and isinstance(n.value.func, ast.Name) and n.value.func.id in ("Sentinel", "object")
                    for t in n.targets if isinstance(t, ast.Name)]
@@ -410,7 +413,10 @@ def translate():
                 if a.kwarg:
                     body = '(SUnsupported "variadic keyword signature")'
                 else:
-                    body = Tr(n, markers).block(n.body)
+                    try:
+                        body = Tr(n, markers).block(n.body)
+                    except Exception as e:  # noqa  (fail-closed: a shape the translator itself trips over is unsupported)
+                        body = "(SUnsupported %s)" % q("translator error %s: %s" % (type(e).__name__, e))
                     if a.vararg:
                         # *args consumed by the slice prelude become start/stop/step; any other *name is a list of iterables
                         params += ["start", "stop", "step"] if body.startswith("(SSeq SSlicePrelude") else [a.vararg.arg]
